@@ -99,21 +99,24 @@ pub struct Probe {
     pub g: Bits,
     pub by: Vec<u8>,
     pub z: u8,
+    /// equal (==, and cmp where the type has it) to a fresh vector built from its own bits
+    pub e: u8,
     pub ok: u8,
 }
 
 impl Probe {
     pub fn to_json(&self) -> Value {
-        json!({"w": self.w, "g": self.g, "by": self.by, "z": self.z, "ok": self.ok})
+        json!({"w": self.w, "g": self.g, "by": self.by, "z": self.z, "e": self.e, "ok": self.ok})
     }
     /// normal form for grouping: the grown vector without its trailing zeros (the amount of growth
     /// depends on the kind's capacity; clean storage gives the same normal form everywhere)
     fn norm(&self, named: bool) -> (&'static str, Bits, Vec<u8>, u8, u8) {
+        let z = self.z + 4 * self.e;
         let mut g = self.g.clone();
         while g.last() == Some(&0) {
             g.pop();
         }
-        (if named { self.w } else { "" }, g, self.by.clone(), self.z, self.ok)
+        (if named { self.w } else { "" }, g, self.by.clone(), z, self.ok)
     }
 }
 
@@ -133,9 +136,14 @@ pub fn probe(v: &AnyBv, what: &'static str) -> Probe {
             Out::Bool(b) => b as u8,
             _ => 2,
         };
-        Probe { w: what, g: gb, by, z, ok: (o1 == Out::Unit) as u8 }
+        // whole-storage comparisons (Bvd == / cmp read every allocated word)
+        let twin = Y::Vec(AnyBv::fresh(v.kind(), &v.bits()));
+        let e1 = exec_keep(&mut c, &twin, "eq", "", &Args::default()) == Out::Bool(true);
+        let e2 = exec_keep(&mut c, &twin, "cmp", "", &Args::default()) == Out::Ord(0);
+        let e3 = exec_keep(&mut c, &twin, "ge", "", &Args::default()) == Out::Bool(true);
+        Probe { w: what, g: gb, by, z, e: (e1 && e2 && e3) as u8, ok: (o1 == Out::Unit) as u8 }
     }));
-    r.unwrap_or(Probe { w: what, g: vec![], by: vec![], z: 2, ok: 0 })
+    r.unwrap_or(Probe { w: what, g: vec![], by: vec![], z: 2, e: 2, ok: 0 })
 }
 
 /// probes of every vector a call returned, then of the subject itself
